@@ -256,7 +256,7 @@ static void exhaustive(int H, long slice, long slices, long nsampled)
 				mon_printf("NOTE harness: constructed shape invalid: %s (%s)\n", before, fail);
 				_exit(2);
 			}
-			nops = (n + 1) + n + n;	/* inserts into every gap, duplicate inserts, deletions */
+			nops = (n + 1) + n + n + n;	/* inserts into every gap, duplicate inserts, deletions, re-insertion of every node that is in the tree */
 			for (op = 0; op < nops; op++) {
 				int ret, key, nk = 0, parents_changed = 0;
 				struct node *extra = &pool[n];
@@ -292,6 +292,25 @@ static void exhaustive(int H, long slice, long slices, long nsampled)
 					if (ret == 0) { fail = "insert of a duplicate key succeeded"; report("dup-insert", key, h, idx, before); continue; }
 					if (struct_hash(tree.root) != hb) { fail = "failed duplicate insert changed the tree"; report("dup-insert", key, h, idx, before); continue; }
 					if (validate(&tree, keys, nk) < 0) report("dup-insert", key, h, idx, before);
+					{	/* "changes nothing": the rejected node is handed back as it was */
+						unsigned char *b = (unsigned char *)&extra->an;
+						size_t z;
+						for (z = 0; z < sizeof(extra->an); z++)
+							if (b[z] != (unsigned char)fills[(op + idx) % 4]) {
+								fail = "failed duplicate insert wrote to the rejected node";
+								report("dup-insert", key, h, idx, before);
+								break;
+							}
+					}
+				} else if (op > 3 * n) {	/* the node that is in the tree is offered again: rejected, nothing changes */
+					int v = op - 3 * n - 1;
+					key = 2 * (v + 1);
+					hb = struct_hash(tree.root);
+					ret = iv_avl_tree_insert(&tree, &pool[v].an);
+					for (i = 0; i < n; i++) keys[nk++] = 2 * (i + 1);
+					if (ret == 0) { fail = "re-insertion of a node that is in the tree succeeded"; report("re-insert", key, h, idx, before); continue; }
+					if (struct_hash(tree.root) != hb) { fail = "rejected re-insertion of an in-tree node changed the tree"; report("re-insert", key, h, idx, before); continue; }
+					if (validate(&tree, keys, nk) < 0) report("re-insert", key, h, idx, before);
 				} else {			/* delete */
 					int v = op - 2 * n - 1;
 					key = 2 * (v + 1);
@@ -313,7 +332,7 @@ static void exhaustive(int H, long slice, long slices, long nsampled)
 					after[0] = 0;
 					describe(tree.root, after, &len, sizeof(after));
 					samples_left--;
-					mon_printf("SAMPLE %s(%d) on %s -> %s\n", op <= n ? "insert" : op <= 2 * n ? "dup-insert" : "delete", key, before, after);
+					mon_printf("SAMPLE %s(%d) on %s -> %s\n", op <= n ? "insert" : op <= 2 * n ? "dup-insert" : op <= 3 * n ? "delete" : "re-insert", key, before, after);
 				}
 			}
 		}
@@ -346,15 +365,23 @@ static void random_histories(uint64_t seed, long ops, int maxkeys)
 		if (want_insert) {
 			if (nodes[key].present) {
 				uint64_t hb = nkeys <= 256 ? struct_hash(tree.root) : 0;
+				int self = rng_pct(&r, 30);	/* offer the very node that is in the tree, or another node with an equal key */
+				struct iv_avl_node snap;
 				dup.key = key;
 				dup.present = 0;
-				if (iv_avl_tree_insert(&tree, &dup.an) == 0) {
+				memset(&dup.an, fills[k & 3], sizeof(dup.an));
+				snap = dup.an;
+				if (iv_avl_tree_insert(&tree, self ? &nodes[key].an : &dup.an) == 0) {
 					fail = "insert of a duplicate key succeeded";
 					mon_viol("C16", "avl-invariant", "dup-insert", "random history step %ld: %s", k, fail);
 					break;
 				}
 				if (nkeys <= 256 && struct_hash(tree.root) != hb) {
 					mon_viol("C16", "avl-invariant", "dup-insert", "random history step %ld: failed duplicate insert changed the tree", k);
+					break;
+				}
+				if (!self && memcmp(&snap, &dup.an, sizeof(snap))) {
+					mon_viol("C16", "avl-invariant", "dup-insert", "random history step %ld: failed duplicate insert wrote to the rejected node", k);
 					break;
 				}
 			} else {
